@@ -30,6 +30,10 @@ func (vt *Model) bs() {
 		if vt.cursor.row == vt.margin.top {
 			return
 		}
+		if vt.cursor.row == 0 {
+			// above the scroll region, on the first line
+			return
+		}
 		// reverse wrap
 		vt.cursor.col = vt.margin.right
 		vt.cursor.row -= 1
